@@ -20,7 +20,7 @@ import (
 func TestMain(m *testing.M) { pbt.Main(m) }
 
 // A small pool forces repeats; the empty string is part of it.
-var pool = []string{"Q101Z alpha", "Q102Z beta\nsecond line", "Q103Z: gamma", "Q104Z", ""}
+var pool = []string{"Q101Z alpha", "Q102Z beta\nsecond line", "Q103Z: gamma", "Q104Z", "", "Q101Z alpha\n", " Q101Z alpha", " ", "\n"}
 
 func poolStr(t *rapid.T, label string) string { return rapid.SampledFrom(pool).Draw(t, label) }
 
